@@ -608,7 +608,10 @@ func (f *FuncVC) applyContract(fr *frame, st *State, c *Contract, callee *ssa.Fu
 	default:
 		res = Val{K: KTuple, Elems: results, Typ: rt}
 	}
-	for _, e := range c.Ensures {
+	if len(c.Defines) > 0 {
+		f.assumptions["naming clause of "+c.Key+" (its result is a function of its arguments and the heap it reads: deterministic call tree, read-only by the frame back end): "+c.Defines[0].Text] = true
+	}
+	for _, e := range append(append([]*Clause{}, c.Ensures...), c.Defines...) {
 		if e.Expr == nil {
 			continue
 		}
